@@ -32,6 +32,10 @@ def build():
     e1("_consume", {"C01": "*", "C02": "*", "C09": "*", "C18": "*", "C16": "*"})
     e1("_parse_integer", {"C02": "*", "C03": "*", "C05": "*", "C10": "*", "C18": "*", "C01": "*", "C16": "*"},
        unwind=9, note="width loop <= 8 iterations by type: --unwind 9 with unwinding assertions is complete")
+    e1("_cmp_name", {"C02": "*", "C07": "*", "C18": "*", "C03": "*", "C01": "*", "C10": "*"}, defs=["VC_STUB_MEMCMP"], replace=["vc_memcmp"], unwind=8,
+       note="memcmp replaced by its assumed C11 contract (unsigned bytes, first difference decides); --unwind only matters if a change introduces a loop")
+    e1("_process_one", {"C01": "*", "C02": "*", "C03": "*", "C08": "*", "C10": "*", "C16": "*", "C18": "*"}, unwind=9, timeout=900,
+       note="_consume, _parse_integer, _check_boundary inlined (real bodies); integer loop <= 8 iterations")
     e1("binson_parser_reset", {"C01": "*", "C02": "*", "C12": "*", "C18": "*"}, timeout=600,
        defs=["VC_STUB_MEMSET"], replace=["vc_memset"],
        note="memset replaced by its assumed (typed) libc contract: CBMC's memset model is inexact for symbolic sizes")
@@ -41,10 +45,15 @@ def build():
     e1("binson_parser_init_object", INITP, replace=["_binson_parser_init"])
     e1("binson_parser_init_array", INITP, replace=["_binson_parser_init"])
     NAVP = {"C01": "*", "C06": "*", "C09": "*", "C16": "*", "C18": "*", "C08": "*"}
-    for fn in ("binson_parser_next", "binson_parser_go_into_object", "binson_parser_go_into_array",
-               "binson_parser_leave_object", "binson_parser_leave_array", "binson_parser_next_ensure"):
-        e1(fn, NAVP if fn != "binson_parser_next_ensure" else dict(NAVP, C07="*"),
-           replace=["_advance_parsing"] if fn != "binson_parser_next_ensure" else ["binson_parser_next"])
+    for fn in ("binson_parser_next", "binson_parser_go_into_object", "binson_parser_go_into_array"):
+        e1(fn, NAVP, replace=["_advance_parsing"])
+    e1("binson_parser_next_ensure", dict(NAVP, C07="*"), replace=["binson_parser_next"])
+    # these index the state array themselves (or call the loop twice): with a symbolic max_depth the
+    # state array is a byte array of symbolic size and CBMC needs > 8 GB; max_depth is enumerated instead
+    for fn in ("binson_parser_leave_object", "binson_parser_leave_array"):
+        for md in (1, 3):
+            e1(fn, NAVP, replace=["_advance_parsing"], defs=["VC_H_MD=%d" % md], name="E1/%s/md=%d" % (fn, md), timeout=900,
+               note="max_depth fixed to %d in this run (state array typed): enumerated, not symbolic" % md)
     e1("binson_parser_verify", {"C01": "*", "C02": "*", "C09": "*", "C12": "*", "C18": "*", "C08": "*"},
        replace=["binson_parser_reset", "_advance_parsing"])
     GETP = {"C01": "*", "C03": "*", "C09": "*", "C18": "*"}
@@ -52,6 +61,18 @@ def build():
                "binson_parser_get_bytes_bbuf", "binson_parser_get_integer", "binson_parser_get_boolean",
                "binson_parser_get_double"):
         e1(fn, GETP)
+    LKP = {"C01": "*", "C07": "*", "C09": "*", "C18": "*", "C08": "*"}
+    e1("binson_parser_field_with_length", LKP, replace=["_advance_parsing", "_cmp_name"], loop=True, timeout=1800, mem=12,
+       defs=["VC_H_MD=1"], name="E1/binson_parser_field_with_length/md=1",
+       note="lookup loop closed by its loop invariant (no decreases clause yet: termination of this loop is not claimed)")
+    e1("binson_parser_field", LKP, defs=["VC_STUB_STRLEN"], replace=["binson_parser_field_with_length", "vc_strlen"])
+    e1("binson_parser_field_ensure", LKP, defs=["VC_STUB_STRLEN"], replace=["binson_parser_field_ensure_with_length", "vc_strlen"])
+    e1("binson_parser_field_ensure_with_length", LKP, replace=["binson_parser_field_with_length", "binson_parser_get_type"])
+    for md in (1, 3):
+        e1("binson_parser_get_raw", {"C01": "*", "C11": "*", "C09": "*", "C06": "*", "C18": "*", "C08": "*"}, replace=["_advance_parsing"],
+           defs=["VC_H_MD=%d" % md], name="E1/binson_parser_get_raw/md=%d" % md, timeout=1800, mem=10,
+           note="max_depth fixed to %d in this run (state array typed): enumerated, not symbolic" % md)
+    e1("binson_parser_string_equals", dict(GETP), defs=["VC_STUB_STRLEN"], replace=["vc_strlen", "_cmp_name"])
     e1("binson_parser_get_depth", {"C01": "*", "C06": "*", "C12": "*", "C18": "*"})
 
     # ---- writer
@@ -65,13 +86,78 @@ def build():
                "binson_write_array_end", "binson_write_boolean"):
         e1(fn, WP, harness=HW, replace=["_write_token"])
 
+    for fn in ("binson_write_integer", "binson_write_double", "binson_write_string_with_len", "binson_write_bytes"):
+        e1(fn, WP, harness=HW, replace=["_write_token"])
+    e1("binson_write_raw", dict(WP, C11="*"), harness=HW, replace=["_write"])
+    for fn in ("binson_writer_init", "binson_writer_reset", "binson_writer_get_counter"):
+        e1(fn, {"C04": "*", "C09": "*", "C12": "*", "C18": "*"}, harness=HW)
+
+    # ---- E4 static facts (C17)
+    for tagp, defs in (("print", ["BINSON_PARSER_WITH_PRINT"]), ("noprint", [])):
+        J.append(Job("E4/static-facts/" + tagp, "E4", "", "", {"C17": "*", "C16": ["S/acyclic"]}, defs=defs, timeout=120, mem_gb=2,
+                     note="call graph / symbol table of the library goto binary built without any harness"))
+
     # ---- E2: _advance_parsing, loop closed by the in-source loop contract, max_depth enumerated
     ADV_PROPS = {"C01": "*", "C06": "*", "C07": "*", "C08": "*", "C09": "*", "C12": "*", "C16": "*", "C18": "*", "C02": "*"}
-    for md, tmo, tier in ((1, 3600, "thorough"), (2, 7200, "thorough"), (3, 5400, "thorough"), (4, 14400, "thorough")):
-        J.append(Job("E2/_advance_parsing/md=%d" % md, "E2", "contracts/h_adv.c", "h_adv", ADV_PROPS,
-                     enforce="_advance_parsing", defs=["VC_MD=%d" % md],
-                     cbmc_args=["--unwindset", "h_adv.0:%d" % (md + 1), "--unwinding-assertions"],
-                     timeout=tmo, mem_gb=12, tier=tier,
-                     expect_fail=["vacuity", "vacuity-true", "vacuity-false"],
-                     note="legacy --apply-loop-contracts; function contract asserted by harness; max_depth=%d constant, all else symbolic" % md))
+    NPART = 16
+    for md, tmo, tier in ((1, 3600, "quick"), (2, 7200, "thorough"), (3, 14400, "thorough")):
+        for i in range(NPART):
+            J.append(Job("E2/_advance_parsing/md=%d/part=%02d" % (md, i), "E2", "contracts/h_adv.c", "h_adv", ADV_PROPS,
+                         enforce="_advance_parsing", defs=["VC_MD=%d" % md],
+                         cbmc_args=["--unwindset", "h_adv.0:%d" % (md + 1), "--unwinding-assertions", "--slice-formula"],
+                         timeout=tmo, mem_gb=10, tier=tier, part=(i, NPART),
+                         note="legacy --apply-loop-contracts; function contract asserted by harness; max_depth=%d constant, all else symbolic; obligations split in %d shares run in parallel" % (md, NPART)))
+
+    # ---- E3 bounded stand-ins (labelled bounded everywhere; never counted as proof)
+    def e3(name, harness, entry, props, defs, unwind, tier="quick", timeout=1500, mem=8, note=""):
+        J.append(Job("E3/" + name, "E3", harness, entry, props, defs=defs,
+                     cbmc_args=["--unwind", str(unwind), "--unwinding-assertions"], timeout=timeout, mem_gb=mem,
+                     tier=tier, note="BOUNDED: " + note))
+
+    for n in range(2, 10):
+        for root in (0, 1):
+            for md in (1, 2, 3):
+                tier = "quick" if (n <= 7 and md <= 2) or (n <= 6) else "thorough"
+                e3("verify-iff-ref/N=%d/root=%s/d=%d" % (n, "oa"[root], md), "bounded/h_verify_ref.c", "h_verify_ref",
+                   {"C02": "*", "C12": ["B/verify-canonical"], "C09": ["B/verify-false-has-error"]},
+                   ["VC_N=%d" % n, "VC_MD=%d" % md, "VC_ROOT_ARRAY=%d" % root], max(9, n + 2), tier=tier,
+                   note="all byte strings of exactly %d bytes, %s-rooted, max_depth %d" % (n, "array" if root else "object", md))
+
+    # navigation / lookup / raw sequences against the reference cursor
+    OPS = {"E": 1, "N": 2, "O": 3, "A": 4, "o": 5, "a": 6, "R": 7, "F": 8, "G": 9, "H": 10}
+    NAV_PROPS = {"C06": "*", "C08": "*", "C03": ["B/nav-type", "B/nav-name-span", "B/nav-integer", "B/nav-boolean",
+                 "B/nav-string-span", "B/nav-bytes-span", "B/nav-double-bits"], "C09": ["B/nav-no-error"]}
+
+    def nav(seq, root, n, tier, props=None, doc=None, extra_defs=(), md=3):
+        defs = ["VC_N=%d" % n, "VC_ROOT_ARRAY=%d" % root, "VC_MD=%d" % md] + ["VC_S%d=%d" % (i, OPS[c]) for i, c in enumerate(seq)]
+        if doc:
+            defs.append("VC_DOC=" + ",".join("0x%02x" % b for b in doc))
+        defs += list(extra_defs)
+        pr = dict(NAV_PROPS)
+        if props:
+            pr.update(props)
+        nm = "nav/%s/%s/N=%d%s" % ("oa"[root], seq, n, "/pinned" if doc else "")
+        unw = max(9, n + 2)
+        J.append(Job("E3/" + nm, "E3", "bounded/h_nav.c", "h_nav", pr, defs=defs,
+                     cbmc_args=["--unwind", str(unw), "--unwinding-assertions", "--no-standard-checks"],
+                     timeout=3600, mem_gb=2 if doc else 9, tier=tier,
+                     note="BOUNDED: all valid %s-rooted documents of exactly %d bytes x call sequence %s (E enter root, N next, O/A go_into_object/array, o/a leave_object/array, R get_raw, F/G/H field lookups); memory-safety checks are off in this tier (they are decided by E1/E2)" % ("array" if root else "object", n, seq)))
+        if not doc:
+            J.append(Job("E3/" + nm + "/feasible", "E3", "bounded/h_nav.c", "h_nav", {k: [] for k in pr}, defs=defs + ["VC_NO_LIB"],
+                         cbmc_args=["--unwind", str(unw), "--unwinding-assertions", "--no-standard-checks"],
+                         timeout=1200, mem_gb=3, tier=tier, note="reference-only run: is the sequence protocol-following on some valid document of this length?"))
+
+    LK = {"C07": "*"}
+    RW = {"C11": "*"}
+    quick_nav = [("ENNo", 0, 7, None), ("ENONoo", 0, 7, None), ("ENo", 0, 7, None), ("ENRNo", 0, 7, RW), ("EFG", 0, 7, LK),
+                 ("EFN", 0, 7, LK), ("ENNa", 1, 6, None), ("ENANaN", 1, 6, None), ("ENONoN", 1, 6, None), ("ENRN", 1, 6, RW)]
+    for seq, root, n, pr in quick_nav:
+        nav(seq, root, n, "quick", pr)
+    thorough_nav = [("ENNNo", 0, 8, None), ("ENANaNo", 0, 8, None), ("ENAao", 0, 8, None), ("EGF", 0, 8, LK), ("EHFG", 0, 8, LK),
+                    ("EFGN", 0, 9, LK), ("ENANaN", 1, 8, None), ("ENAaN", 1, 8, None), ("ENRNRN", 1, 8, RW), ("ENONRNo", 0, 9, RW)]
+    for seq, root, n, pr in thorough_nav:
+        nav(seq, root, n, "thorough", pr)
+    # pinned shapes of the listed known findings (concrete documents)
+    nav("ENAaN", 1, 10, "quick", doc=[0x42, 0x42, 0x40, 0x41, 0x43, 0x40, 0x41, 0x10, 0x05, 0x43])     # [[{}],{},5]
+    nav("ENa", 1, 8, "quick", doc=[0x42, 0x42, 0x10, 0x01, 0x43, 0x42, 0x43, 0x43])                    # [[1],[]]
     return J
